@@ -1,13 +1,13 @@
 """Python side of the ptrace executor (E3)."""
 import os, json, subprocess
-from .common import VERIF, BUILD, sh
+from .common import VERIF, BUILD, AUX, sh
 from . import build, harness as H
 
 NATIVE = os.path.join(VERIF, 'native')
 
 
 def build_sysx():
-    d = os.path.join(BUILD, 'aux')
+    d = AUX
     os.makedirs(d, exist_ok=True)
     out = os.path.join(d, 'sysx')
     r = sh(['gcc', '-O1', '-g', '-Wall', os.path.join(NATIVE, 'sysx.c'), '-o', out])
@@ -17,7 +17,7 @@ def build_sysx():
 
 
 def build_sysxs():
-    d = os.path.join(BUILD, 'aux')
+    d = AUX
     os.makedirs(d, exist_ok=True)
     out = os.path.join(d, 'sysxs')
     r = sh(['gcc', '-O1', '-g', '-Wall', os.path.join(NATIVE, 'sysxs.c'), '-o', out])
